@@ -363,6 +363,7 @@ mod imp {
         vop!(t, "into", |a, m| o((Vec3::from(a), <[f32; 3]>::from(a), <(f32, f32, f32)>::from(a))));
         vop!(t, "as_ref", |a, m| o(*<Vec3A as AsRef<[f32; 3]>>::as_ref(&a)));
         vop!(t, "index", |a, m| o([a[0], a[1], a[2], a.x, a.y, a.z]));
+        vop!(t, "index 3", |a, m| o((catch(|| a[3].to_bits()).ok(), catch(|| { let mut c = a; c[3] = 1.0; c.to_array().map(|x| x.to_bits()) }).ok())));
         vop!(t, "extend", |a, m| o(a.extend(5.0)));
         vop!(t, "truncate", |a, m| o(a.truncate()));
         vop!(t, "swz2", |a, m| o((a.xy(), a.zz(), a.yx())));
@@ -467,6 +468,9 @@ mod imp {
         bop!(t, "select", |a, m| rv(Vec3A::select(a, m.v[0], m.v[1])));
         bop!(t, "any_all_bitmask", |a, m| o((a.any(), a.all(), a.bitmask())));
         bop!(t, "test", |a, m| o([a.test(0), a.test(1), a.test(2)]));
+        // the index of the hidden lane is out of range: whatever happens (a panic is documented), it must
+        // not depend on what the hidden lane holds
+        bop!(t, "test(3), set(3)", |a, m| o((catch(|| a.test(3)).ok(), catch(|| { let mut c = a; c.set(3, true); c.bitmask() }).ok(), catch(|| { let mut c = a; c.set(3, false); c.bitmask() }).ok())));
         bop!(t, "eq_hash", |a, m| o((a == m.b[0], a == a, a != m.b[1], hash64(&a))));
         bop!(t, "into", |a, m| o((<[bool; 3]>::from(a), <[u32; 3]>::from(a))));
         bop!(t, "strings", |a, m| o((format!("{:?}", a), format!("{}", a))));
